@@ -429,3 +429,9 @@ for m_ in (1, 2, 8):
              [("chunk", mk_arr("c", 2 * m_)), ("m", (lambda m_=m_: m_)), ("w_m", sym("wm"))], c_butterfly(m_),
              lambda res, args, ctx: {"chunk": list(args[0].items), "exits": list(ctx.exits)})
     u.extra_contracts = FFTC
+
+
+# ---- util::powers_of, instances (backstop for the Verus unit, which holds for all degrees but depends on the loop's text)
+for d_ in range(0, 6):
+    unit(f"kernels.powers_of[d={d_}]", "src/util.rs", "powers_of", [("scalar", sym("x")), ("max_degree", (lambda d_=d_: d_))],
+         (lambda it, recv, a, d_=d_: VArr([P(Sym("x")) ** i for i in range(d_ + 1)], "vec")), lambda res, args, ctx: {"result": res})
